@@ -11,6 +11,7 @@ package main
 import (
 	"fmt"
 	"math/rand"
+	"time"
 )
 
 type wgen struct {
@@ -168,10 +169,11 @@ func genC09(r *rand.Rand, tier string, idx int) []string {
 
 func init() {
 	register(&Suite{
-		Name: "c09",
-		Rule: "histories of 4..25 (thorough 4..53) ops: update / overwrite / same-value rewrite / delete (both entry points) / delete+re-add over 2..9 (thorough up to 19) 32-byte keys sharing prefixes of every length, weights 1..4 determined by the value, interleaved with commit at collapse levels -1..6, GC, reload from the committed (root, weight), weight, root, owner of random and of every block; non-trivial = at least 2 successful mutations and one commit",
-		Gen:  genC09,
-		Run:  runWmpt,
+		Name:        "c09",
+		Rule:        "histories of 4..25 (thorough 4..53) ops: update / overwrite / same-value rewrite / delete (both entry points) / delete+re-add over 2..9 (thorough up to 19) 32-byte keys sharing prefixes of every length, weights 1..4 determined by the value, interleaved with commit at collapse levels -1..6, GC, reload from the committed (root, weight), weight, root, owner of random and of every block; non-trivial = at least 2 successful mutations and one commit",
+		Gen:         genC09,
+		Run:         runWmpt,
+		CaseTimeout: 3 * time.Minute, // a stalled machine must not look like a hang; a real hang still fails the case
 		DefaultN: func(tier string) int {
 			if tier == "thorough" {
 				return 80000
